@@ -480,9 +480,9 @@ def shards(tier, seed):
     n_h = 14 if tier == 'quick' else 16
     for k in range(n_h):
         out.append(dict(kind='hyp', seed=seed * 1000 + k,
-                        n=600 if tier == 'quick' else 15000))
+                        n=600 if tier == 'quick' else 60000))
     out.append(dict(kind='workbook', seed=seed * 1000 + 77,
-                    n=60 if tier == 'quick' else 1500))
+                    n=60 if tier == 'quick' else 4000))
     out.append(dict(kind='purity'))
     return out
 
